@@ -702,6 +702,7 @@ pub fn variants(ops_path: &str, scratch: &str) -> (u64, Vec<String>) {
         let same_bytes: Vec<(&str, BackendKind)> = vec![
             ("second run", BackendKind::Mem),
             ("std::fs::File", BackendKind::File(file_path.clone())),
+            ("cfb::create(path) over a longer stale file", BackendKind::PathApi(file_path.clone())),
             ("1-byte transfers", BackendKind::Chunky(Chunking::OneByte)),
             ("random short transfers", BackendKind::Chunky(Chunking::RandomShort)),
             ("Interrupted then retry", BackendKind::Chunky(Chunking::Interrupted)),
